@@ -1,8 +1,14 @@
-(* C15 — Acknowledged state of the persistent backends survives restart.  PARTIAL: the model
-   covers the clean-restart clause (observables are a function of the persistent component);
-   crash atomicity (kill -9) depends on bbolt / the filesystem and is not exhibited by the model. *)
-From GF Require Import Base.Bytes Base.SortedMap Model.Mem Model.Handlers Model.Uploader Model.MemWalk
-  Proofs.MemInvDef Proofs.MemInv.
+(* C15 — Acknowledged state of the persistent backends survives restart.
+   Clean restart: observables are a function of the persistent component.
+   Kill: the filesystem backends are modelled at the granularity of their state-changing
+   file-system calls (Model/Crash.v); the theorems below say exactly which part of the kill
+   clause holds for them (other keys intact at every crash point, DeleteObject atomic, every
+   crash state classified and repaired by the next PUT) and which does not (PutObject is not
+   crash-atomic: [C15_fs_put_not_crash_atomic_refuted], recorded as known finding D31).
+   PARTIAL: the atomicity of a bbolt Update transaction and the durability of the page cache
+   are properties of bbolt / the OS; the model treats a bolt mutation as one step. *)
+From GF Require Import Base.Bytes Base.Lit Base.SortedMap Model.Mem Model.Handlers Model.Uploader Model.MemWalk
+  Proofs.MemInvDef Proofs.MemInv Model.Crash Proofs.CrashProofs.
 
 (* a server = persistent backend state + volatile uploader state; restart drops the latter *)
 Definition server := (state * ustate)%type.
@@ -31,3 +37,70 @@ Print Assumptions C15_persistent_state_wellformed.
 Theorem C15_uploads_are_volatile : forall (sv : server) b k id, get_upload (snd (restart sv)) b k id = None.
 Proof. intros sv b k id. reflexivity. Qed.
 Print Assumptions C15_uploads_are_volatile.
+
+(* ---- kill -9 on the filesystem backends ------------------------------------------------- *)
+
+(* an uninterrupted PutObject (unlink, create, write, metadata) is the abstract put: the key
+   answers the new body, its MD5 and the new metadata; every other key answers as before *)
+Theorem C15_fs_put_complete : forall md5 d k b u,
+  DInv md5 d ->
+  let d' := run_ops d (put_ops md5 d k b u) in
+  observe md5 d' k = Some (b, md5 b, u) /\
+  (forall k', k' <> k -> observe md5 d' k' = observe md5 d k') /\
+  DInv md5 d'.
+Proof. exact put_complete. Qed.
+Print Assumptions C15_fs_put_complete.
+
+(* whatever the crash point inside a PutObject or DeleteObject (before any call, or half way
+   through a write), every other key — every acknowledged write — is served exactly as before *)
+Theorem C15_fs_crash_leaves_other_keys_intact : forall md5 d k b u n p k',
+  k' <> k ->
+  observe md5 (run_ops d (crash_prefix (put_ops md5 d k b u) n p)) k' = observe md5 d k' /\
+  observe md5 (run_ops d (crash_prefix (del_ops d k) n p)) k' = observe md5 d k'.
+Proof. intros md5 d k b u n p k' H. split; [apply put_crash_frame | apply del_crash_frame]; exact H. Qed.
+Print Assumptions C15_fs_crash_leaves_other_keys_intact.
+
+(* DeleteObject is crash-atomic: at every crash point the key is as before or gone *)
+Theorem C15_fs_delete_crash_atomic : forall md5 d k n p,
+  let o := observe md5 (run_ops d (crash_prefix (del_ops d k) n p)) k in
+  o = observe md5 d k \/ o = None.
+Proof. exact del_crash_atomic. Qed.
+Print Assumptions C15_fs_delete_crash_atomic.
+
+(* every state a kill inside PutObject can leave for its key: old, new, or one of the listed
+   partial states (absent; empty / half / whole new body with the previous or no metadata) *)
+Theorem C15_fs_put_crash_outcomes : forall md5 d k b u n p,
+  DInv md5 d ->
+  In (observe md5 (run_ops d (crash_prefix (put_ops md5 d k b u) n p)) k)
+     (observe md5 d k :: Some (b, md5 b, u) :: partial_states md5 d k b).
+Proof. exact put_crash_outcomes. Qed.
+Print Assumptions C15_fs_put_crash_outcomes.
+
+(* ... the store stays well-formed and the next complete PUT of the key repairs it *)
+Theorem C15_fs_put_crash_repaired_by_next_put : forall md5 d k b u n p b2 u2,
+  DInv md5 d ->
+  let dc := run_ops d (crash_prefix (put_ops md5 d k b u) n p) in
+  DInv md5 dc /\ observe md5 (run_ops dc (put_ops md5 dc k b2 u2)) k = Some (b2, md5 b2, u2).
+Proof. intros md5 d k b u n p b2 u2 H. split; [apply put_crash_inv; exact H | apply put_crash_repair; exact H]. Qed.
+Print Assumptions C15_fs_put_crash_repaired_by_next_put.
+
+(* the kill clause does NOT hold for PutObject of the filesystem backends: there is a crash
+   point after which the key is neither its acknowledged old object nor the new one *)
+Theorem C15_fs_put_not_crash_atomic_refuted : forall md5, exists d k b u n p,
+  DInv md5 d /\
+  observe md5 (run_ops d (crash_prefix (put_ops md5 d k b u) n p)) k <> observe md5 d k /\
+  observe md5 (run_ops d (crash_prefix (put_ops md5 d k b u) n p)) k <> Some (b, md5 b, u).
+Proof. exact put_crash_not_atomic. Qed.
+Print Assumptions C15_fs_put_not_crash_atomic_refuted.
+
+(* non-vacuity: a disk written by a live server satisfies the invariant, and the crash points of
+   an overwrite really produce each kind of outcome *)
+Example C15_crash_example :
+  let md := fun b : bytes => 99%N :: b in
+  let d0 := disk_of md [(B "a", (B "old!", [(B "c", B "blue")])); (B "d", (B "dd", []))] in
+  map (fun n => observe md (run_ops d0 (crash_prefix (put_ops md d0 (B "a") (B "NEWW") [(B "c", B "red")]) n false)) (B "a"))
+      [0; 1; 2; 3; 4; 5]%nat =
+  [Some (B "old!", md (B "old!"), [(B "c", B "blue")]); None; Some ([], md [], [(B "c", B "blue")]);
+   Some (B "NEWW", md (B "NEWW"), [(B "c", B "blue")]); Some (B "NEWW", md (B "NEWW"), []);
+   Some (B "NEWW", md (B "NEWW"), [(B "c", B "red")])].
+Proof. vm_compute. reflexivity. Qed.
